@@ -1,14 +1,414 @@
 package main
 
+// Generated code ("probe-proved" parts): gqlgen's generator is run FROM THE WORKING TREE inside a scratch copy of
+// the repository, the generated packages are loaded like any other, and every generated function is classified
+// into a family by its name/signature (not by its body); the family contract (declared once in
+// /repo/codegen/verif_contracts.go resp. /repo/plugin/federation/verif_contracts.go) is instantiated for each
+// member. Results are proofs about those generated programs, not about all schemas.
+
 import (
+	"bytes"
 	"fmt"
+	"go/ast"
+	"go/types"
+	"os"
+	"os/exec"
+	"path/filepath"
 	"regexp"
+	"sort"
+	"strings"
+	"time"
 )
 
 func generateProbesImpl(repo string, probes []ProbeConfig, tier string) (string, []ProbeResult, error) {
-	return "", nil, fmt.Errorf("probe generation not built yet")
+	scratch, err := os.MkdirTemp("", "gocvprobe")
+	if err != nil {
+		return "", nil, err
+	}
+	dst := filepath.Join(scratch, "repo")
+	if out, err := exec.Command("rsync", "-a", "--exclude", ".git", "--exclude", "_examples", "--exclude", "docs", repo+"/", dst+"/").CombinedOutput(); err != nil {
+		return scratch, nil, fmt.Errorf("rsync: %v: %s", err, out)
+	}
+	env := append(os.Environ(), "GOFLAGS=-mod=mod", "GOPROXY=off")
+	gen := filepath.Join(scratch, "gqlgen-gen")
+	b := exec.Command("go", "build", "-o", gen, "./testdata/gqlgen.go")
+	b.Dir = dst
+	b.Env = env
+	if out, err := b.CombinedOutput(); err != nil {
+		return scratch, nil, fmt.Errorf("building the generator from the working tree failed: %v: %s", err, trunc(string(out), 2000))
+	}
+	var res []ProbeResult
+	for _, p := range probes {
+		if p.Tier == "thorough" && tier != "thorough" {
+			continue
+		}
+		t0 := time.Now()
+		dir := filepath.Join(dst, p.RepoDir)
+		if p.Dir != "" {
+			// probe shipped in /verif/probes: copy into the scratch repo
+			src := filepath.Join(verifRoot, "probes", p.Dir)
+			dir = filepath.Join(dst, p.Dest)
+			os.MkdirAll(dir, 0o755)
+			if out, err := exec.Command("rsync", "-a", src+"/", dir+"/").CombinedOutput(); err != nil {
+				return scratch, nil, fmt.Errorf("copy probe %s: %v: %s", p.Name, err, out)
+			}
+		}
+		for _, rm := range p.Remove {
+			os.Remove(filepath.Join(dir, rm))
+		}
+		args := []string{"-config", p.Config}
+		if p.Stub != "" {
+			args = append(args, "-stub", p.Stub)
+		}
+		c := exec.Command(gen, args...)
+		c.Dir = dir
+		c.Env = env
+		var buf bytes.Buffer
+		c.Stdout, c.Stderr = &buf, &buf
+		if err := c.Run(); err != nil {
+			return scratch, nil, fmt.Errorf("generation of probe %s failed: %v: %s", p.Name, err, trunc(buf.String(), 3000))
+		}
+		res = append(res, ProbeResult{Name: p.Name, Patterns: p.Patterns, GenMs: time.Since(t0).Milliseconds()})
+	}
+	return dst, res, nil
+}
+
+// ---------------------------------------------------------------- classification
+
+func typeStr(t types.Type) string {
+	return types.TypeString(t, func(p *types.Package) string { return p.Name() })
+}
+
+func hasParamOfType(sig *types.Signature, ts string) bool {
+	for i := 0; i < sig.Params().Len(); i++ {
+		if typeStr(sig.Params().At(i).Type()) == ts {
+			return true
+		}
+	}
+	return false
+}
+
+func bodyCalls(fd *ast.FuncDecl, name string) bool {
+	found := false
+	ast.Inspect(fd.Body, func(n ast.Node) bool {
+		if c, ok := n.(*ast.CallExpr); ok {
+			switch f := c.Fun.(type) {
+			case *ast.SelectorExpr:
+				if f.Sel.Name == name {
+					found = true
+				}
+			case *ast.Ident:
+				if f.Name == name {
+					found = true
+				}
+			}
+		}
+		return !found
+	})
+	return found
+}
+
+func bodyMentions(fd *ast.FuncDecl, pkg, name string) bool {
+	found := false
+	ast.Inspect(fd.Body, func(n ast.Node) bool {
+		if s, ok := n.(*ast.SelectorExpr); ok {
+			if id, ok := s.X.(*ast.Ident); ok && id.Name == pkg && s.Sel.Name == name {
+				found = true
+			}
+		}
+		return !found
+	})
+	return found
+}
+
+// classify assigns a generated function to a family by name and signature.
+func classify(ref *funcRef) string {
+	fd, obj := ref.fd, ref.obj
+	if fd.Body == nil {
+		return ""
+	}
+	sig := obj.Type().(*types.Signature)
+	name := obj.Name()
+	isEC := false
+	if sig.Recv() != nil && strings.HasSuffix(typeStr(sig.Recv().Type()), "executionContext") {
+		isEC = true
+	}
+	if !isEC && hasParamOfType(sig, "*"+ref.pkg.Types.Name()+".executionContext") {
+		isEC = true // function syntax variant: ec passed as a parameter
+	}
+	switch {
+	case name == "processDeferredGroup":
+		return "deferredgroup"
+	case name == "introspectSchema" || name == "introspectType" || name == "__resolve__service":
+		return "introspectgate"
+	case name == "__resolve_entities":
+		return "fedentities"
+	case name == "resolveEntityGroup":
+		return "fedgroup"
+	case name == "resolveEntity":
+		return "fedentity"
+	case name == "resolveManyEntities":
+		return "fedmany"
+	case name == "buildRepresentationGroups":
+		return "fedrepgroups"
+	case strings.HasPrefix(name, "entityResolverNameFor"):
+		return "fedresolvername"
+	}
+	if sig.Recv() != nil && strings.HasSuffix(typeStr(sig.Recv().Type()), "executableSchema") && name == "Schema" {
+		return "schemagetter"
+	}
+	if !isEC {
+		return ""
+	}
+	switch {
+	case strings.HasPrefix(name, "fieldContext_"):
+		if bodyCalls(fd, "recover") {
+			return "fieldctxargs"
+		}
+		return "fieldctx"
+	case strings.HasPrefix(name, "_") && hasParamOfType(sig, "graphql.CollectedField"):
+		if sig.Results().Len() == 1 && strings.HasPrefix(typeStr(sig.Results().At(0).Type()), "func(") {
+			return "streamfield"
+		}
+		return "field"
+	case strings.HasPrefix(name, "_") && hasParamOfType(sig, "ast.SelectionSet") && bodyCalls(fd, "CollectFields"):
+		if bodyCalls(fd, "Concurrently") || bodyCalls(fd, "Dispatch") {
+			return "object"
+		}
+		return "streamobject"
+	case strings.HasPrefix(name, "marshal") && bodyMentions(fd, "sync", "WaitGroup"):
+		return "listmarshal"
+	case name == "_fieldMiddleware":
+		return "fieldmiddleware"
+	}
+	return ""
+}
+
+// extraKinds: additional families a function belongs to (their clauses are merged into its contract). The
+// parameters come from the function NAME, which gqlgen derives from the schema type (ᚄ marks a NonNull element
+// type, ᚕ a list), not from the template text under verification.
+func extraKinds(ref *funcRef, kind string) []string {
+	name := ref.obj.Name()
+	var out []string
+	switch kind {
+	case "listmarshal":
+		if strings.HasSuffix(name, "ᚄ") {
+			out = append(out, "listnn")
+		}
+	case "object":
+		if name == "_Mutation" {
+			out = append(out, "mutationroot")
+		}
+	}
+	if kind != "introspectgate" {
+		out = append(out, "nogatebypass")
+	}
+	return out
+}
+
+func mergeContracts(base *Contract, extra []*Contract) *Contract {
+	c := *base
+	c.Invs = map[int][]*SExpr{}
+	c.Steps = map[int][]*SExpr{}
+	c.At = map[string][]AtClause{}
+	for _, src := range append([]*Contract{base}, extra...) {
+		if src != base {
+			c.Props = append(append([]string{}, c.Props...), src.Props...)
+			c.Requires = append(append([]*SExpr{}, c.Requires...), src.Requires...)
+			c.Ensures = append(append([]*SExpr{}, c.Ensures...), src.Ensures...)
+			c.EnsSrc = append(append([]string{}, c.EnsSrc...), src.EnsSrc...)
+			c.GoEnsures = append(append([]*SExpr{}, c.GoEnsures...), src.GoEnsures...)
+			c.EnsProp = append(append([]string{}, c.EnsProp...), src.EnsProp...)
+			c.GoEnsProp = append(append([]string{}, c.GoEnsProp...), src.GoEnsProp...)
+			c.Ghosts = append(append([]AtClause{}, c.Ghosts...), src.Ghosts...)
+			c.Callsites = append(append([]CallsiteClause{}, c.Callsites...), src.Callsites...)
+			c.Uses = append(append([]string{}, c.Uses...), src.Uses...)
+			c.NoPanic = c.NoPanic || src.NoPanic
+			c.NoEscape = c.NoEscape || src.NoEscape
+			c.Safe = c.Safe || src.Safe
+			c.GoSafe = c.GoSafe || src.GoSafe
+		}
+		for k, v := range src.Invs {
+			c.Invs[k] = append(c.Invs[k], v...)
+		}
+		for k, v := range src.Steps {
+			c.Steps[k] = append(c.Steps[k], v...)
+		}
+		for k, v := range src.At {
+			c.At[k] = append(c.At[k], v...)
+		}
+	}
+	return &c
+}
+
+type famInstance struct {
+	key  string
+	kind string
+	ref  *funcRef
 }
 
 func (s *Session) familyUnitsImpl(id string, probes []ProbeResult, re *regexp.Regexp) []*Unit {
-	return nil
+	if len(s.cs.Families) == 0 || len(probes) == 0 {
+		return nil
+	}
+	byKind := map[string]*Contract{}
+	for _, f := range s.cs.Families {
+		byKind[strings.TrimPrefix(f.Key, "family:")] = f
+	}
+	// probe packages
+	isProbe := func(pkgPath string) bool {
+		for _, p := range probes {
+			for _, pat := range p.Patterns {
+				pp := strings.TrimPrefix(strings.TrimSuffix(pat, "/..."), "./")
+				if strings.HasSuffix(pkgPath, pp) || strings.Contains(pkgPath, pp+"/") {
+					return true
+				}
+			}
+		}
+		return false
+	}
+	var insts []famInstance
+	var keys []string
+	for k := range s.ix.byKey {
+		keys = append(keys, k)
+	}
+	sort.Strings(keys)
+	for _, k := range keys {
+		ref := s.ix.byKey[k]
+		if !isProbe(ref.pkg.PkgPath) {
+			continue
+		}
+		kind := classify(ref)
+		if kind == "" {
+			continue
+		}
+		fam := byKind[kind]
+		if fam == nil {
+			continue
+		}
+		// instantiate and register (callers use the callee's contract)
+		if _, exists := s.cs.ByKey[k]; !exists {
+			var extra []*Contract
+			for _, ek := range extraKinds(ref, kind) {
+				if ec := byKind[ek]; ec != nil {
+					extra = append(extra, ec)
+					if s.famCounts == nil {
+						s.famCounts = map[string]int{}
+					}
+					s.famCounts[ek]++
+				}
+			}
+			inst := *mergeContracts(fam, extra)
+			inst.Key = k
+			inst.Family = nil
+			inst.atUsed = map[string]bool{}
+			inst.FamKind = kind
+			s.cs.ByKey[k] = &inst
+		}
+		insts = append(insts, famInstance{k, kind, ref})
+	}
+	if s.famCounts == nil {
+		s.famCounts = map[string]int{}
+	}
+	var units []*Unit
+	for _, in := range insts {
+		con := s.cs.ByKey[in.key]
+		s.famCounts[in.kind]++
+		if !con.hasProp(id) {
+			continue
+		}
+		if re != nil && !re.MatchString(in.key) {
+			continue
+		}
+		u := s.verifyKey(in.key, con)
+		// anchors of a family contract need not occur in every member
+		var keep []*Obligation
+		for _, o := range u.Obls {
+			if strings.Contains(o.Name, ":anchor:") {
+				continue
+			}
+			keep = append(keep, o)
+		}
+		u.Obls = keep
+		units = append(units, u)
+		// closure members (inner functions the object executor hands to the scheduler)
+		if sub := byKind[in.kind+"$closure"]; sub != nil && sub.hasProp(id) {
+			n := 0
+			ast.Inspect(in.ref.fd.Body, func(x ast.Node) bool {
+				if _, ok := x.(*ast.FuncLit); ok {
+					n++
+				}
+				return true
+			})
+			for k := 1; k <= n; k++ {
+				fl := nthFuncLit(in.ref.fd, k)
+				if fl == nil || !closureIsMember(in.ref, fl, sub) {
+					continue
+				}
+				ck := fmt.Sprintf("%s$%d", in.key, k)
+				inst := *sub
+				inst.Key = ck
+				inst.Family = nil
+				inst.atUsed = map[string]bool{}
+				s.cs.ByKey[ck] = &inst
+				s.famCounts[in.kind+"$closure"]++
+				cu := s.verifyKey(ck, &inst)
+				var keep2 []*Obligation
+				for _, o := range cu.Obls {
+					if !strings.Contains(o.Name, ":anchor:") {
+						keep2 = append(keep2, o)
+					}
+				}
+				cu.Obls = keep2
+				units = append(units, cu)
+			}
+		}
+	}
+	// a family tagged with this property must have members in the probes
+	for kind, fam := range byKind {
+		if strings.Contains(kind, "$") || !fam.hasProp(id) {
+			continue
+		}
+		if s.famCounts[kind] == 0 && famExpected(kind, probes) {
+			units = append(units, &Unit{Key: "family:" + kind, Short: "family." + kind, Con: fam, Obls: []*Obligation{{Name: "family." + kind + ":binding", Goal: "the family has members in the generated probes", Result: SolveResult{Status: "unknown", Model: "no generated function was classified as " + kind}}}})
+		}
+	}
+	return units
+}
+
+// famExpected: federation families are only expected in federation probes.
+func famExpected(kind string, probes []ProbeResult) bool {
+	fed := strings.HasPrefix(kind, "fed")
+	for _, p := range probes {
+		isFed := strings.Contains(p.Name, "fed")
+		if fed == isFed {
+			return true
+		}
+	}
+	return false
+}
+
+// closureIsMember: a closure belongs to the "<kind>$closure" family if it is the value assigned to the variable
+// named by the family's `params` clause (e.g. innerFunc) or, with no name given, every closure containing recover().
+func closureIsMember(ref *funcRef, fl *ast.FuncLit, fam *Contract) bool {
+	want := ""
+	if len(fam.Params) > 0 {
+		want = fam.Params[0]
+	}
+	member := false
+	ast.Inspect(ref.fd.Body, func(n ast.Node) bool {
+		as, ok := n.(*ast.AssignStmt)
+		if !ok {
+			return true
+		}
+		for i, r := range as.Rhs {
+			if r == ast.Expr(fl) && i < len(as.Lhs) {
+				if id, ok := as.Lhs[i].(*ast.Ident); ok && (want == "" || id.Name == want) {
+					member = true
+				}
+			}
+		}
+		return true
+	})
+	return member
 }
